@@ -21,6 +21,8 @@ func checkC14(r *Run) {
 	contextLockRule(r, "R3")
 	globalStoreRule(r, "R4")
 	ambientRule(r, "R5")
+	r.Rule("R6", "a Template is shared between goroutines (the cache): apart from the once-written program its fields are only read - nothing stores into a field of a Template it did not just build, and no field's address is handed to other code", 1)
+	sharedTemplateRule(r, "R6")
 }
 
 const (
@@ -125,7 +127,14 @@ func cacheLockRule(r *Run, rule string) {
 			}
 			g := cfgOf(pinfo, f.Decl.Body)
 			tr := lockTransfer(pinfo, isMu)
-			in := forwardStates(g, lkUnheld, tr, func(n ast.Node, st int) {
+			// a helper that is only ever called with the mutex held ("the caller must hold moot") starts
+			// with it held: unexported, not used as a value, and every call of it is made in that state
+			init := lkUnheld
+			byCallers := calledOnlyWithLockHeld(w, f, isMuFor(w, mu))
+			if byCallers {
+				init = lkHeld
+			}
+			in := forwardStates(g, init, tr, func(n ast.Node, st int) {
 				if _, isDefer := n.(*ast.DeferStmt); isDefer {
 					return
 				}
@@ -145,12 +154,93 @@ func cacheLockRule(r *Run, rule string) {
 				})
 			})
 			for st := range exitStates(g, in, tr) {
-				if st == lkHeld {
+				if st == lkHeld && !byCallers {
 					r.Bad(rule, f.Name(), "return with the cache mutex held", w.Pos(f.Decl.Pos()), "a path returns without releasing the mutex (no deferred Unlock)")
+				}
+				if st != lkHeld && st != lkHeldDeferred && byCallers {
+					r.Bad(rule, f.Name(), "releases the mutex of its callers", w.Pos(f.Decl.Pos()), "a helper that is called with the mutex held must return with it held: its callers go on to use the cache")
 				}
 			}
 		}
 	}
+}
+
+// isMuFor: the expression denotes the package-level mutex, in any package's type information.
+func isMuFor(w *World, mu *types.Var) func(info *types.Info, e ast.Expr) bool {
+	return func(info *types.Info, e ast.Expr) bool { return objOf(info, e) == types.Object(mu) }
+}
+
+// calledOnlyWithLockHeld: f is an unexported function that is never used as a value and every call of it
+// (there is at least one) sits where its caller holds the mutex on every path.
+func calledOnlyWithLockHeld(w *World, f *FuncInfo, isMu func(info *types.Info, e ast.Expr) bool) bool {
+	if f.Obj.Exported() || f.Obj.Type().(*types.Signature).Recv() != nil {
+		return false
+	}
+	nCalls := 0
+	for _, g := range w.AllFuncs() {
+		if g.Obj == f.Obj {
+			continue
+		}
+		ginfo := g.Pkg.TypesInfo
+		uses, calls := 0, map[*ast.CallExpr]bool{}
+		ast.Inspect(g.Decl.Body, func(n ast.Node) bool {
+			switch x := n.(type) {
+			case *ast.Ident:
+				if ginfo.Uses[x] == types.Object(f.Obj) {
+					uses++
+				}
+			case *ast.CallExpr:
+				if calleeOf(ginfo, x) == f.Obj {
+					calls[x] = true
+				}
+			}
+			return true
+		})
+		if uses == 0 {
+			continue
+		}
+		if uses != len(calls) {
+			return false // used as a value somewhere
+		}
+		// inside a function literal the lock state is not known
+		inLit := false
+		ast.Inspect(g.Decl.Body, func(n ast.Node) bool {
+			if fl, ok := n.(*ast.FuncLit); ok {
+				ast.Inspect(fl, func(m ast.Node) bool {
+					if c, ok := m.(*ast.CallExpr); ok && calls[c] {
+						inLit = true
+					}
+					return true
+				})
+				return false
+			}
+			return true
+		})
+		if inLit {
+			return false
+		}
+		cg := cfgOf(ginfo, g.Decl.Body)
+		tr := lockTransfer(ginfo, func(e ast.Expr) bool { return isMu(ginfo, e) })
+		ok := true
+		forwardStates(cg, lkUnheld, tr, func(n ast.Node, st int) {
+			ast.Inspect(n, func(m ast.Node) bool {
+				if _, isLit := m.(*ast.FuncLit); isLit {
+					return false
+				}
+				if c, isCall := m.(*ast.CallExpr); isCall && calls[c] {
+					nCalls++
+					if st != lkHeld && st != lkHeldDeferred {
+						ok = false
+					}
+				}
+				return true
+			})
+		})
+		if !ok {
+			return false
+		}
+	}
+	return nCalls > 0
 }
 
 func relOf(w *World, pkgPath string) string {
